@@ -20,6 +20,7 @@ RULE = ("seeded tables with fields from {i1..u8, f4, f8, S1-S12} x {scalar, 1-d,
 TRUSTED = ["numpy long double for the unit-in-last-digit comparison"]
 ASSUMPTIONS = ["strings contain no newline and no byte >= 0x80; doubles whose 16-digit rounding overflows are not generated",
                "sign of zero is not compared"]
+THOROUGH_ROUNDS = 8      # the thorough tier runs the generator over this many derived seeds
 REQUIRED = {"quick": {"C04.cells": 750, "C04.header": 400, "C04.file": 750},
             "thorough": {"C04.cells": 15000, "C04.header": 8000, "C04.file": 15000}}
 ROUTES = ["sfile", "SFile", "Recfile", "io"]
